@@ -315,6 +315,14 @@ def split_at(s, p):
     return s, []
 
 
+def sb_of(s):
+    return utf8(s)
+
+
+def dec_bytes(b):
+    return [ord(ch) for ch in b.decode("utf-8")]
+
+
 def c04_cases(tier, seed):
     rng = random.Random(seed * 53 + 29)
     n = 12000 if tier == "thorough" else 1500
@@ -328,6 +336,8 @@ def c04_cases(tier, seed):
                 s += [0x0d, 0x0a] if r > 0.975 else [0x0d]     # CR LF is ONE cluster of two one-byte characters
                 continue
             s.append(0x0a if r < 0.1 else 0x20 if r < 0.3 else rng.choice(alpha))
+        if rng.random() < 0.04:
+            s = [rng.choice([0x20, 0x20, 0x09, 0x3000]) for _ in range(rng.randint(1, 4))] + ([0x61] if rng.random() < 0.3 else [])
         p = rng.choice(boundaries(s))
         head = "4096 %s %d" % (enc(s), p)
         cnt = rng.choice([1, 1, 2, 3, 4, 65535])
@@ -345,6 +355,10 @@ def c04_cases(tier, seed):
         mv = rand_mvt(rng, [c] + alpha[:3])
         group["copy"] = "copy " + mv
         group["kill"] = "kill " + mv
+        # vi `^` as the keymap composes it (home, then the start of the next Big word) and the range of d^ / y^
+        group["vfp_motion"] = "home ; mnw s b 1"
+        group["copy_vfp"] = "copy vfp"
+        group["kill_vfp"] = "kill vfp"
         out.append((head, s, p, group, {"cnt": cnt, "w": w, "a": a, "c": c, "k": k, "mv": mv}))
     return out
 
@@ -497,6 +511,18 @@ def c04_corr(res, exe, driver, tier, seed, tmp):
         sb = utf8(s)
         if b"\n" in sb[hb:eb] or not (hb <= p <= eb) or (hb > 0 and sb[hb - 1:hb] != b"\n") or (eb < L and sb[eb:eb + 1] != b"\n"):
             fail(head, "home/end", r["home"] + " | " + r["end"], "home/end (%d,%d) do not bracket the cursor's line" % (hb, eb))
+        # -- d^ / y^ cover exactly the text between the cursor and where `^` ends (single-line texts: `^` works on the buffer)
+        if 0x0a not in s:
+            # command.rs: home, and when the text starts with a blank, the start of the next Big word
+            e = last("vfp_motion")[2] if s and in_tab(tabs["whitespace"], s[0]) else last("home")[2]
+            lo, hi = min(p, e), max(p, e)
+            want = "none" if lo == hi else "some:" + enc(dec_bytes(sb_of(s)[lo:hi]))
+            got = last("copy_vfp")[0]
+            if got != want:
+                fail(head, group["copy_vfp"], r["copy_vfp"], "`^` ends at %d from cursor %d: the range is %s, copy(ViFirstPrint) returns %s" % (e, p, want, got))
+            kv = last("kill_vfp")
+            if utf8(kv[1]) != sb_of(s)[:lo] + sb_of(s)[hi:] or kv[2] != lo:
+                fail(head, group["kill_vfp"], r["kill_vfp"], "`^` ends at %d from cursor %d: kill(ViFirstPrint) leaves %s with the cursor at %d" % (e, p, enc(kv[1]), kv[2]))
         # -- kill removes exactly what copy returns
         cp, kl = last("copy"), last("kill")
         mv = meta["mv"]
